@@ -5,8 +5,7 @@ firewall in the cone verified in this epoch) and `NGood` (consistent down to the
 with current transitive-firewall-callee fingerprints), the invariant `Inv`, `Frame`, and their basic
 theory.
 
-The invariant (stage 1 of the projection development: projections read firewalls only, clause
-`pjFw`):
+The invariant (for programs of `Shape`: a projection reads firewalls and static projections only):
 * `solid`  (I1)  verified in this epoch ⇒ `Solid`;
 * `clean`  (I2/I3, marking) a clean recorded edge `(x, y)` ⇒ the observed value is the stored one,
   and for a normal callee the fingerprint seen is the callee's current set and the callee is `NGood`
@@ -88,22 +87,19 @@ structure Inv (p : Program) (s : St) : Prop where
   kind : ∀ k n, s.nodes k = some n →
     ∃ d, p[k]? = some d ∧ d.kind = n.kind ∧
       (n.kind = .input ∨ n.kind = .external → n.deps = [] ∧ n.tfc = [])
-  /-- class A (`NoProjOverProj`): a projection has recorded firewalls only -/
-  pjFw : NoProjOverProj p → ∀ k n, s.nodes k = some n → n.kind = .projection →
-    ∀ d o nd, (d, o) ∈ n.deps → s.nodes d = some nd → nd.kind = .firewall
-  /-- a projection has recorded firewalls and projections only -/
+  /-- a projection has recorded firewalls and STATIC projections only (`Shape`) -/
   pjKinds : ∀ k n, s.nodes k = some n → n.kind = .projection →
-    ∀ d o nd, (d, o) ∈ n.deps → s.nodes d = some nd → nd.kind = .firewall ∨ nd.kind = .projection
-  /-- class B (`StaticProj`): the recorded keys and the firewall set of a projection are those of its
-      static read sequence -/
-  pjStat : StaticProj p → ∀ k n d ks, s.nodes k = some n → p[k]? = some d → n.kind = .projection →
+    ∀ d o nd, (d, o) ∈ n.deps → s.nodes d = some nd →
+      nd.kind = .firewall ∨ (nd.kind = .projection ∧ IsStaticKey p d)
+  /-- the recorded keys and the firewall set of a static projection are those of its read sequence -/
+  pjStat : ∀ k n d ks, s.nodes k = some n → p[k]? = some d → n.kind = .projection →
     ProgStatic d.prog ks → n.deps.map (·.1) = recordKeys ks [] ∧ n.tfc = foldTfc (front s) ks []
-  /-- class B: the fingerprint seen of a projection callee is its (never changing) set -/
-  pjSeen : StaticProj p → ∀ x n g o ng, s.nodes x = some n → (g, o) ∈ n.deps → s.nodes g = some ng →
-    ng.kind = .projection → n.seen g = ng.tfc
-  /-- class B: a projection with a pending backward projection has a callee with one -/
-  pjCause : StaticProj p → ∀ g ng, s.nodes g = some ng → ng.kind = .projection → ng.pendingBP = true →
-    ∃ c o, (c, o) ∈ ng.deps ∧ hasPending s c = true
+  /-- the fingerprint seen of a static projection callee is its (never changing) set -/
+  pjSeen : ∀ x n g o ng, s.nodes x = some n → (g, o) ∈ n.deps → s.nodes g = some ng →
+    ng.kind = .projection → IsStaticKey p g → n.seen g = ng.tfc
+  /-- a static projection with a pending backward projection has a callee with one -/
+  pjCause : ∀ g ng, s.nodes g = some ng → ng.kind = .projection → IsStaticKey p g →
+    ng.pendingBP = true → ∃ c o, (c, o) ∈ ng.deps ∧ hasPending s c = true
   /-- I7: a recorded callee of a projection whose stored value is not the observed one has a pending
       backward projection -/
   pjBroken : ∀ k n, s.nodes k = some n → n.kind = .projection →
@@ -302,26 +298,26 @@ theorem settledFw_iff {s : St} {f : Key} :
   | none => simp
   | some n => simp
 
-/-- class B: a projection with a pending backward projection has a pending firewall in its set -/
-theorem Inv.pend_witness {p : Program} {s : St} (inv : Inv p s) (sp : StaticProj p) :
-    ∀ c nc, s.nodes c = some nc → nc.kind = .projection → nc.pendingBP = true →
+/-- a static projection with a pending backward projection has a pending firewall in its set -/
+theorem Inv.pend_witness {p : Program} {s : St} (inv : Inv p s) :
+    ∀ c nc, s.nodes c = some nc → nc.kind = .projection → IsStaticKey p c → nc.pendingBP = true →
       ∃ f nf, f ∈ nc.tfc ∧ s.nodes f = some nf ∧ nf.pendingBP = true := by
   intro c
   induction c using Nat.strongRecOn with
   | _ c ih =>
-    intro nc hc hk hp
-    obtain ⟨d, o, hm, hpd⟩ := inv.pjCause sp c nc hc hk hp
+    intro nc hc hk hst hp
+    obtain ⟨d, o, hm, hpd⟩ := inv.pjCause c nc hc hk hst hp
     obtain ⟨hlt, nd, hnd⟩ := inv.down c nc hc d o hm
     have hpd' : nd.pendingBP = true := by simpa [hasPending, hnd] using hpd
     obtain ⟨sfw, spj⟩ := inv.seenSub c nc hc d o nd hm hnd
-    rcases inv.pjKinds c nc hc hk d o nd hm hnd with hkd | hkd
+    rcases inv.pjKinds c nc hc hk d o nd hm hnd with hkd | ⟨hkd, hsd⟩
     · exact ⟨d, nd, sfw hkd, hnd, hpd'⟩
-    · obtain ⟨f, nf, hf, hnf, hpf⟩ := ih d hlt nd hnd hkd hpd'
+    · obtain ⟨f, nf, hf, hnf, hpf⟩ := ih d hlt nd hnd hkd hsd hpd'
       refine ⟨f, nf, spj (Or.inr hkd) f ?_, hnf, hpf⟩
-      rw [inv.pjSeen sp c nc d o nd hc hm hnd hkd]; exact hf
+      rw [inv.pjSeen c nc d o nd hc hm hnd hkd hsd]; exact hf
 
 /-- I7, derived: a projection all of whose recorded firewalls are settled is `Solid` -/
-theorem Inv.proj_solid {p : Program} {s : St} (inv : Inv p s) (sh : Shape p) :
+theorem Inv.proj_solid {p : Program} {s : St} (inv : Inv p s) :
     ∀ z n, s.nodes z = some n → n.kind = .projection →
       (∀ f, f ∈ n.tfc → settledFw s f = true) → Solid s z := by
   intro z
@@ -334,28 +330,22 @@ theorem Inv.proj_solid {p : Program} {s : St} (inv : Inv p s) (sh : Shape p) :
       intro d o hm
       obtain ⟨hlt, nd, hnd⟩ := inv.down z n hz d o hm
       obtain ⟨sfw, spj⟩ := inv.seenSub z n hz d o nd hm hnd
-      have fwCase : nd.kind = .firewall → ∃ nd, s.nodes d = some nd ∧ nd.pendingBP = false ∧
-          (nd.kind ≠ .firewall → nd.tfc = n.seen d) ∧ Solid s d := by
-        intro hkd
-        obtain ⟨nf, hnf, hv, hp⟩ := settledFw_iff.1 (hall d (sfw hkd))
+      rcases inv.pjKinds z n hz hk d o nd hm hnd with hkd | ⟨hkd, hsd⟩
+      · obtain ⟨nf, hnf, hv, hp⟩ := settledFw_iff.1 (hall d (sfw hkd))
         rw [hnd] at hnf; cases hnf
         exact ⟨nd, hnd, hp, fun h => absurd hkd h, inv.solid d nd hnd hv⟩
-      rcases sh with pa | sp
-      · exact fwCase (inv.pjFw pa z n hz hk d o nd hm hnd)
-      · rcases inv.pjKinds z n hz hk d o nd hm hnd with hkd | hkd
-        · exact fwCase hkd
-        · have hseen := inv.pjSeen sp z n d o nd hz hm hnd hkd
-          have hsub : ∀ f, f ∈ nd.tfc → settledFw s f = true := fun f hf =>
-            hall f (spj (Or.inr hkd) f (by rw [hseen]; exact hf))
-          have hnp : nd.pendingBP = false := by
-            cases hp : nd.pendingBP with
-            | false => rfl
-            | true =>
-              obtain ⟨f, nf, hf, hnf, hpf⟩ := inv.pend_witness sp d nd hnd hkd hp
-              obtain ⟨nf', hnf', _, hpf'⟩ := settledFw_iff.1 (hsub f hf)
-              rw [hnf] at hnf'; cases hnf'
-              rw [hpf] at hpf'; cases hpf'
-          exact ⟨nd, hnd, hnp, fun _ => hseen.symm, ih d hlt nd hnd hkd hsub⟩
+      · have hseen := inv.pjSeen z n d o nd hz hm hnd hkd hsd
+        have hsub : ∀ f, f ∈ nd.tfc → settledFw s f = true := fun f hf =>
+          hall f (spj (Or.inr hkd) f (by rw [hseen]; exact hf))
+        have hnp : nd.pendingBP = false := by
+          cases hp : nd.pendingBP with
+          | false => rfl
+          | true =>
+            obtain ⟨f, nf, hf, hnf, hpf⟩ := inv.pend_witness d nd hnd hkd hsd hp
+            obtain ⟨nf', hnf', _, hpf'⟩ := settledFw_iff.1 (hsub f hf)
+            rw [hnf] at hnf'; cases hnf'
+            rw [hpf] at hpf'; cases hpf'
+        exact ⟨nd, hnd, hnp, fun _ => hseen.symm, ih d hlt nd hnd hkd hsub⟩
     refine Solid.mk z n hz (fun h => by rw [hk] at h; cases h) (fun _ => Or.inr ?_) ?_ ?_
     · intro d o hm
       obtain ⟨nd, hnd, hp, _⟩ := dep d o hm
@@ -372,7 +362,7 @@ theorem Inv.proj_solid {p : Program} {s : St} (inv : Inv p s) (sh : Shape p) :
       exact hs
 
 /-- an `NGood` normal node all of whose recorded firewalls are settled is `Solid` -/
-theorem NGood.solid_of_settled {p : Program} {s : St} (inv : Inv p s) (sh : Shape p) {k : Key}
+theorem NGood.solid_of_settled {p : Program} {s : St} (inv : Inv p s) {k : Key}
     (h : NGood s k) :
     ∀ n, s.nodes k = some n → n.kind = .normal → (∀ f, f ∈ n.tfc → settledFw s f = true) → Solid s k := by
   induction h with
@@ -397,7 +387,7 @@ theorem NGood.solid_of_settled {p : Program} {s : St} (inv : Inv p s) (sh : Shap
       rw [hacc (by rw [hkn]; decide)] at hf
       exact hall f (snm (Or.inl hkn) f hf)
     | projection =>
-      refine inv.proj_solid sh d nd hnd hkn ?_
+      refine inv.proj_solid d nd hnd hkn ?_
       intro f hf
       rw [hacc (by rw [hkn]; decide)] at hf
       exact hall f (snm (Or.inr hkn) f hf)
